@@ -73,7 +73,12 @@ func configs(thorough bool) []cfgCase {
 	ca := mk("12-clientauth", 0, false, 0, false)
 	ca.v.C.Cred = "ecdsa"
 	ca.v.S.ClientAuth = dtls.RequireAndVerifyClientCert
-	out = append(out, res, ca)
+	// a resumption attempt cut off without an alert, then a resumed connection; stores that do not copy
+	ri := mk("12-resumed-after-interrupted", 0, false, 0, false)
+	ri.v.Resumed, ri.v.Interrupted, ri.v.AliasStore = true, true, true
+	ra := mk("12-resumed-aliasstore", 0, false, 0, false)
+	ra.v.Resumed, ra.v.AliasStore = true, true
+	out = append(out, res, ca, ri, ra)
 	return out
 }
 
